@@ -224,9 +224,17 @@ class Case:
         frames = c.p.frames[c.seen:]
         c.seen = len(c.p.frames)
         for f in frames:
-            if f.is_request:
-                continue
             ident = (f.h.code, f.h.app, f.h.hbh, f.h.e2e)
+            if f.is_request:
+                # what the node originates itself (CER, DWR, DPR, application requests) bears its own identifiers;
+                # a "request" mirroring a pending request of the peer is that request's answer with the R bit left on
+                for i, r in enumerate(c.unanswered):
+                    if r[:4] == ident:
+                        self.witness("answer.request_bit_not_cleared", {"frame": repr(f), "conn": c.idx,
+                                                                        "pending": c.unanswered[-4:]})
+                        c.unanswered.pop(i)
+                        break
+                continue
             hit = None
             for i, r in enumerate(c.unanswered):
                 if r[:4] == ident:
